@@ -507,6 +507,79 @@ func shortCircuit() *core.Family {
 	}
 }
 
+// extension calls with every argument count 0..3: the AST (and policy text and JSON) can carry
+// a call with too few or too many arguments; it fails when it is evaluated, whatever the
+// arguments are, and a folding rule must not turn it into a value.
+func extensionArity() *core.Family {
+	names := ExtNames()
+	lit := map[string]*Expr{"ip": L(Str("127.0.0.1")), "decimal": L(Str("1.5")), "datetime": L(Str("2024-01-01")), "duration": L(Str("1h"))}
+	recv := map[string]*Expr{
+		"lessThan": Ext("decimal", L(Str("1.0"))), "lessThanOrEqual": Ext("decimal", L(Str("1.0"))), "greaterThan": Ext("decimal", L(Str("1.0"))), "greaterThanOrEqual": Ext("decimal", L(Str("1.0"))),
+		"isIpv4": Ext("ip", L(Str("127.0.0.1"))), "isIpv6": Ext("ip", L(Str("127.0.0.1"))), "isLoopback": Ext("ip", L(Str("127.0.0.1"))), "isMulticast": Ext("ip", L(Str("127.0.0.1"))), "isInRange": Ext("ip", L(Str("127.0.0.1"))),
+		"toDate": Ext("datetime", L(Str("2024-01-01"))), "toTime": Ext("datetime", L(Str("2024-01-01"))), "offset": Ext("datetime", L(Str("2024-01-01"))), "durationSince": Ext("datetime", L(Str("2024-01-01"))),
+		"toDays": Ext("duration", L(Str("1h"))), "toHours": Ext("duration", L(Str("1h"))), "toMinutes": Ext("duration", L(Str("1h"))), "toSeconds": Ext("duration", L(Str("1h"))), "toMilliseconds": Ext("duration", L(Str("1h"))),
+	}
+	extras := []*Expr{L(Long(1)), Access(Var("context"), "a"), L(Str("x")), Var("principal")}
+	type cs struct {
+		name string
+		e    *Expr
+	}
+	var cases []cs
+	for _, f := range names {
+		first := lit[f]
+		if first == nil {
+			first = recv[f]
+		}
+		for n := 0; n <= 3; n++ {
+			var argLists [][]*Expr
+			switch n {
+			case 0:
+				argLists = [][]*Expr{{}}
+			case 1:
+				argLists = [][]*Expr{{first}, {extras[0]}, {extras[1]}}
+			default:
+				for _, x := range extras {
+					args := []*Expr{first}
+					for k := 1; k < n; k++ {
+						args = append(args, x)
+					}
+					argLists = append(argLists, args)
+				}
+				// the natural second argument of the binary methods, then one more
+				if r := recv[f]; r != nil && n == 3 {
+					argLists = append(argLists, []*Expr{first, r, r})
+				}
+			}
+			for _, args := range argLists {
+				call := Ext(f, args...)
+				cases = append(cases,
+					cs{fmt.Sprintf("%s/%d", f, n), call},
+					cs{fmt.Sprintf("%s/%d==self", f, n), Bin(OEq, call, call)},
+					cs{fmt.Sprintf("%s/%d in set", f, n), Bin(OContains, SetLit(call, L(Bool(true))), L(Bool(true)))},
+					cs{fmt.Sprintf("%s/%d ||", f, n), Bin(OOr, Bin(OEq, call, call), L(Bool(true)))},
+				)
+				for _, m := range []string{"isLoopback", "toDate", "toDays"} {
+					cases = append(cases, cs{fmt.Sprintf("%s/%d.%s()", f, n, m), Ext(m, call)})
+				}
+				cases = append(cases, cs{fmt.Sprintf("%s/%d.lessThan(decimal)", f, n), Ext("lessThan", call, Ext("decimal", L(Str("2.0"))))})
+			}
+		}
+	}
+	return &core.Family{
+		Name: "extension-call-arity",
+		Desc: fmt.Sprintf("%d expressions: each of the %d extension functions called with 0, 1, 2 and 3 arguments (a valid first argument followed by literals, request values and variables), alone and consumed by ==, a set literal, ||, a method call: folded and unfolded classes agree in every environment", len(cases), len(names)),
+		N:    int64(len(cases)),
+		Run: func(t *core.T, i int64) {
+			c := cases[i]
+			if checkExpr(t, "ext-arity:"+c.name, c.e, true) {
+				t.Nontrivial()
+			}
+			t.Nontrivial()
+			t.SampleF(c.e.String)
+		},
+	}
+}
+
 func Check() *core.Check {
 	return &core.Check{
 		ID:        "C04",
@@ -532,7 +605,7 @@ func Check() *core.Check {
 			} else {
 				fams = append(fams, arithShapes(2))
 			}
-			return append(fams, shortCircuit(), condLists(), wideLiterals())
+			return append(fams, shortCircuit(), condLists(), wideLiterals(), extensionArity())
 		},
 	}
 }
